@@ -89,13 +89,14 @@ def execute(scenario):
         prepass = scenario.get("prepass")
         if prepass is not None and scenario.get("api", "Reader") == "Reader" and source_kind == "path":
             # the same Reader object has been iterated before (k rows, or completely): the judged pass starts over
-            earlier = run.reader.rows()
-            taken = 0
-            for _ in earlier:
-                taken += 1
-                if prepass >= 0 and taken >= prepass:
-                    break
-            del earlier
+            def first_pass():
+                taken = 0
+                for _ in run.reader.rows():
+                    taken += 1
+                    if prepass >= 0 and taken >= prepass:
+                        break
+
+            lib.call(first_pass)
             run.generator = run.reader.rows()
             result.probe("second-pass-on-the-same-reader")
 
